@@ -94,11 +94,25 @@ fn digest_of(p1: &[u8], pos: usize, key: &[u8]) -> [u8; 32] {
 
 /// A digest-bearing packet 1 for `role`, using `scheme` with digest offset `offset`.
 pub fn make_p1(role: Role, scheme: Scheme, offset: usize, high: bool, fill_seed: u64) -> Vec<u8> {
+    make_p1_with_header(role, scheme, offset, high, fill_seed, 0)
+}
+
+/// `header` selects the 8 leading bytes (time, version), which carry no meaning for the digest:
+/// 0 = time 0 + a typical version for the role, 1 = all zero, 2 = random time + zero version,
+/// 3 = random time and version.
+pub fn make_p1_with_header(role: Role, scheme: Scheme, offset: usize, high: bool, fill_seed: u64, header: u64) -> Vec<u8> {
     let mut p = expand_bytes(fill_seed ^ 0x51, PKT);
-    p[0..4].copy_from_slice(&[0, 0, 0, 0]);
-    match role {
-        Role::Client => p[4..8].copy_from_slice(&[10, 0, 45, 2]),
-        Role::Server => p[4..8].copy_from_slice(&[4, 5, 0, 1]),
+    match header {
+        0 => {
+            p[0..4].copy_from_slice(&[0, 0, 0, 0]);
+            match role {
+                Role::Client => p[4..8].copy_from_slice(&[10, 0, 45, 2]),
+                Role::Server => p[4..8].copy_from_slice(&[4, 5, 0, 1]),
+            }
+        }
+        1 => p[0..8].copy_from_slice(&[0; 8]),
+        2 => p[4..8].copy_from_slice(&[0; 4]),
+        _ => {}
     }
     steer(&mut p, scheme.selector(), offset, high);
     let pos = digest_pos(&p, scheme);
